@@ -382,6 +382,9 @@ func minimallyEncode(data []byte) []byte {
 		return data
 	}
 
+	// The trimmed encoding is built in a copy: the input may be shared with other
+	// stack items or with the script being executed.
+	data = append([]byte(nil), data...)
 	for i := len(data) - 1; i > 0; i-- {
 		if data[i-1] != 0 {
 			if data[i-1]&0x80 != 0 {
